@@ -325,7 +325,7 @@ ConeKey(s, a) == IF a.t = "Tick" THEN "tick" ELSE IF a.t = "Mut" THEN "mut" ELSE
 ConeKeyStr(k) == k
 ConesOf(k) ==
   LET h == k \in {"plain", "nts"} IN
-  [C15 |-> IF h THEN {"bresp", "stat.reason", "panic"} ELSE {},
+  [C15 |-> IF h THEN {"bresp", "panic"} ELSE {},   \* (the statistics entry, reason included, is C21's business)
    C16 |-> IF h THEN {"fits", "len", "blen", "panic"} ELSE {},
    C17 |-> IF h THEN {"same", "resp", "len", "blen", "panic"} ELSE {},
    C18 |-> IF h THEN {"echo", "hdr", "canary", "marker", "panic"} ELSE {},
